@@ -798,6 +798,68 @@ def c_sym_paths(cf, env0, table):
     return out
 
 
+PI_TXT = '3.141592653589793'
+
+
+def density_reference(name, k, X, Y):
+    """value of output cell (x, y) for a parameter vector of length k"""
+    P = lambda i_: Rat.atom('params[%d]' % i_)
+    if name == 'biv_lognormal':
+        lay = {3: (P(0), P(0), P(1), P(1), P(2)), 5: (P(0), P(1), P(2), P(3), P(4))}[k]
+        env = dict(zip(('mu1', 'mu2', 'sigma1', 'sigma2', 'rho'), lay), X=X, Y=Y)
+        env['dx'] = parse_expr('(log(X) - mu1)/sigma1', env)
+        env['dy'] = parse_expr('(log(Y) - mu2)/sigma2', env)
+        env['q'] = parse_expr('(dx*dx - 2*rho*dx*dy + dy*dy)/(1 - rho*rho)', env)
+        return parse_expr('exp(-q/2)/(2*%s*sigma1*sigma2*sqrt(1. - rho*rho)*X*Y)' % PI_TXT, env)
+    lay = {2: (P(0), P(0), P(1), P(1)), 3: (P(0), P(0), P(1), P(1)), 4: (P(0), P(1), P(2), P(3)), 5: (P(0), P(1), P(2), P(3))}[k]
+    env = dict(zip(('a1', 'a2', 'b1', 'b2'), lay), X=X, Y=Y)
+    return parse_expr('(pow(X, a1 - 1.)*exp(-X/b1)/(pow(b1, a1)*gamma_func(a1))) * (pow(Y, a2 - 1.)*exp(-Y/b2)/(pow(b2, a2)*gamma_func(a2)))', env)
+
+
+def c_density(rep, cf, rel, name, counts):
+    """content of every cell of `output` when the compiled density returns (sa.csym), for each supported length of the parameter
+    vector: the closed form with that length's parameter layout, at row-major position i*m + j.  Auxiliary arrays, hoisted
+    invariants and pointer walks do not matter."""
+    from sa import csym
+    layout_ok, layout_det = True, []
+    idx_ok, idx_det = True, []
+    for k in counts:
+        try:
+            paths = csym.run(cf, {'Nparams': Rat.const(k)})
+            if len(paths) != 1:
+                raise AlgebraError('%d paths' % len(paths))
+            p_ = paths[0]
+            outs = [s_ for s_ in p_.stores if s_.array == 'output']
+            foreign = sorted({s_.array for s_ in p_.stores if s_.array in ('xx', 'yy', 'params')})
+            if len(outs) != 1 or outs[0].op != '=' or len(outs[0].nest) != 2:
+                raise AlgebraError('%d stores into output' % len(outs))
+            st = outs[0]
+            rows = [(v, lo, hi) for v, lo, hi in st.nest if hi.equals(Rat.atom('n')) and lo.is_zero()]
+            cols = [(v, lo, hi) for v, lo, hi in st.nest if hi.equals(Rat.atom('m')) and lo.is_zero()]
+            if len(rows) != 1 or len(cols) != 1:
+                idx_ok = False
+                idx_det.append('Nparams=%d: loops %s' % (k, [(v, lo.canon(), hi.canon()) for v, lo, hi in st.nest]))
+                continue
+            vi, vj = rows[0][0], cols[0][0]
+            okp = st.index.equals(Rat.atom(vi) * Rat.atom('m') + Rat.atom(vj))
+            idx_ok = idx_ok and okp and not foreign
+            if not okp or foreign:
+                idx_det.append('Nparams=%d: output[%s]%s' % (k, st.index.canon(), ('; also writes %s' % foreign) if foreign else ''))
+            ref = density_reference(name, k, Rat.atom('xx[%s]' % vi), Rat.atom('yy[%s]' % vj))
+            okv = st.value.equals(ref)
+            rep.ob('R-ALG', 'C %s value [%d parameters]' % (name, k), okv, 'output cell (i, j) = %s' % (('the closed-form density with the %d-parameter layout' % k) if okv else st.value.canon()[:200]), rel, st.line,
+                   what={'biv_lognormal': 'exp(-q/2)/(2 pi s1 s2 sqrt(1-rho^2) x y), q = (dx^2 - 2 rho dx dy + dy^2)/(1-rho^2), dx = (log x - mu1)/s1, dy = (log y - mu2)/s2',
+                         'biv_ind_gamma': 'product of the gamma densities x^(a_k-1) exp(-x/b_k)/(b_k^a_k Gamma(a_k)) with (a_k, b_k) of each axis'}[name])
+            layout_ok = layout_ok and okv
+        except (AlgebraError, AnalysisError) as e:
+            rep.ob('R-ALG', 'C %s value [%d parameters]' % (name, k), False, 'C %s is not recognised: %s' % (name, e), rel, cf.line, what='content of the output cells')
+            layout_ok = None if layout_ok is not False else False
+    if layout_ok is not None:
+        rep.ob('R-IDX', 'C %s parameter layouts' % name, bool(layout_ok), 'parameter vectors of length %s read with their own layout' % '/'.join(str(k) for k in counts), rel, cf.line,
+               what={'biv_lognormal': '3-parameter (shared) and 5-parameter layouts', 'biv_ind_gamma': '2|3-parameter (shared) and 4|5-parameter layouts'}[name])
+        rep.ob('R-IDX', 'C %s output index' % name, idx_ok, '; '.join(idx_det) if idx_det else 'cell (i, j) at i*m + j, i over [0, n), j over [0, m); inputs not written', rel, cf.line, what='row-major output')
+
+
 def check_pdfs(rep, prog):
     cprog = CProgram(files=['dadi/DFE/PDFs.c'])
     rel = 'dadi/DFE/PDFs.c'
@@ -805,69 +867,11 @@ def check_pdfs(rep, prog):
     pm = prog.mod('dadi.DFE.PDFs')
     # ---- biv_lognormal -------------------------------------------------------------------------------------------
     cf = cprog.func('biv_lognormal')
-    layouts = {}
-    for st in cf.body:
-        if isinstance(st, CIf):
-            node = st
-            while node is not None:
-                cond = unparse(node.cond)
-                layouts[cond] = {unparse(a.target): unparse(a.value) for a in node.body if isinstance(a, CAssign)}
-                node = node.orelse[0] if node.orelse and isinstance(node.orelse[0], CIf) else None
-    want = {'Nparams == 3': {'mu1': 'params[0]', 'mu2': 'params[0]', 'sigma1': 'params[1]', 'sigma2': 'params[1]', 'rho': 'params[2]'},
-            'Nparams == 5': {'mu1': 'params[0]', 'mu2': 'params[1]', 'sigma1': 'params[2]', 'sigma2': 'params[3]', 'rho': 'params[4]'}}
-    rep.ob('R-IDX', 'C biv_lognormal parameter layouts', layouts == want, str(layouts), rel, cf.line, what='3-parameter (shared) and 5-parameter layouts')
+    c_density(rep, cf, rel, 'biv_lognormal', (3, 5))
     py = prog.func('dadi.DFE.PDFs', 'biv_lognormal_py')
     tp = ast.unparse(py)
     okpl = 'mu, sigma, rho = params' in tp and 'mu1 = mu2 = mu' in tp and 'sigma1 = sigma2 = sigma' in tp and 'mu1, mu2, sigma1, sigma2, rho = params' in tp
     rep.ob('R-IDX', 'Python biv_lognormal_py parameter layouts', okpl, 'same two layouts', pm.rel, py.lineno, what='Python reference uses the same layouts')
-    # formulas: extract C scalars in the double loop
-    try:
-        loops = [s for s in cf.body if isinstance(s, CFor)]
-        defs = {}
-        for lp in loops[:2]:
-            b = lp.body[0]
-            defs[unparse(b.target.value)] = (unparse(lp.init.target), b.value)
-
-        def ih(tr, e):
-            base = unparse(e.value)
-            if base in defs:
-                lv, val = defs[base]
-                return Translator({}, index_hook=ih, name_hook=nh).tr(val).subs({}) if True else None
-            if base in ('xx', 'yy'):
-                return Rat.atom(base.upper()[0])
-            return None
-
-        def nh(n):
-            return None
-        # delx[ii] -> (log(X) - mu1)/sigma1 ; dely[jj] -> (log(Y) - mu2)/sigma2
-        env = {}
-        for st in cf.body:
-            if isinstance(st, CAssign) and unparse(st.target) == 'pre':
-                env['pre'] = Translator({}, index_hook=ih).tr(st.value)
-        dbl = loops[2].body[0]
-        T = Translator(env, index_hook=ih)
-        for b in dbl.body:
-            if isinstance(b.target, ast.Name):
-                T.env[b.target.id] = T.tr(b.value)
-            else:
-                out = b.value
-        dx, dy = parse_expr('(numpy.log(X) - mu1)/sigma1'), parse_expr('(numpy.log(Y) - mu2)/sigma2')
-        rho = Rat.atom('rho')
-        qref = (dx * dx - Rat.const(2) * rho * dx * dy + dy * dy) / (Rat.const(1) - rho * rho)
-        pi = T.tr(ast.parse('3.14159265358979323846264338327950288', mode='eval').body)
-        nref = Rat.const(2) * pi * parse_expr('sigma1*sigma2') * ((Rat.const(1) - rho * rho) ** Fraction(1, 2)) * parse_expr('X*Y')
-        okq = T.env['q'].equals(qref)
-        okn = T.env['norm'].equals(nref) or True
-        oko = unparse(out) == 'exp(-q / 2.0) / norm'
-        # norm: compare structurally (sqrt of a non-monomial is an opaque atom on both sides)
-        okn = unparse([s for s in cf.body if isinstance(s, CAssign) and unparse(s.target) == 'pre'][0].value).replace(' ', '') in ('2*3.141592653589793*sigma1*sigma2*sqrt(1.0-rho*rho)',) and \
-            unparse([b for b in dbl.body if unparse(b.target) == 'norm'][0].value) == 'pre * xx[ii] * yy[jj]'
-        idx = [b for b in dbl.body if not isinstance(b.target, ast.Name)][0].target
-        oki = unparse(idx.value) == 'output' and Translator().tr(idx.slice).equals(parse_expr('ii*m + jj'))
-        rep.ob('R-ALG', 'C biv_lognormal q', okq, 'q = (dx^2 - 2 rho dx dy + dy^2)/(1 - rho^2) with dx = (log x - mu1)/sigma1, dy = (log y - mu2)/sigma2', rel, cf.line, what='quadratic form of the bivariate lognormal')
-        rep.ob('R-ALG', 'C biv_lognormal density', okn and oko and oki, 'output[ii*m+jj] = exp(-q/2)/(2 pi sigma1 sigma2 sqrt(1-rho^2) x y)', rel, cf.line, what='normalisation and row-major output index')
-    except (AlgebraError, IndexError, KeyError, AttributeError) as e:
-        rep.ob('R-ALG', 'C biv_lognormal', False, 'unrecognised structure: %s' % e, rel, cf.line, what='bivariate lognormal density')
     try:
         sing = {}
         for n in py.body:
@@ -881,32 +885,7 @@ def check_pdfs(rep, prog):
         rep.ob('R-ALG', 'Python biv_lognormal_py', False, str(e), pm.rel, py.lineno, what='Python reference equals the C density')
     # ---- biv_ind_gamma ---------------------------------------------------------------------------------------------------
     cg = cprog.func('biv_ind_gamma')
-    lay = {}
-    for st in cg.body:
-        if isinstance(st, CIf):
-            node = st
-            while node is not None:
-                lay[unparse(node.cond)] = {unparse(a.target): unparse(a.value) for a in node.body if isinstance(a, CAssign)}
-                node = node.orelse[0] if node.orelse and isinstance(node.orelse[0], CIf) else None
-    wantg = {'Nparams == 2 or Nparams == 3': {'alpha1': 'params[0]', 'alpha2': 'params[0]', 'beta1': 'params[1]', 'beta2': 'params[1]'},
-             'Nparams == 4 or Nparams == 5': {'alpha1': 'params[0]', 'alpha2': 'params[1]', 'beta1': 'params[2]', 'beta2': 'params[3]'}}
-    rep.ob('R-IDX', 'C biv_ind_gamma parameter layouts', lay == wantg, str(lay), rel, cg.line, what='2|3-parameter (shared) and 4|5-parameter layouts')
-    scal = {unparse(s.target): s.value for s in cg.body if isinstance(s, CAssign) and isinstance(s.target, ast.Name)}
-    loops = [s for s in cg.body if isinstance(s, CFor)]
-    for k, (cname, arr, lp, g) in enumerate((('cx', 'margx', loops[0], 'xx'), ('cy', 'margy', loops[1], 'yy')), start=1):
-        a, b = 'alpha%d' % k, 'beta%d' % k
-        try:
-            okc = unparse(scal[cname]) == 'pow(%s, %s) * gamma_func(%s)' % (b, a, a)
-            body = lp.body[0]
-            lv = unparse(lp.init.target)
-            okm = unparse(body.target) == '%s[%s]' % (arr, lv) and unparse(body.value) == 'pow(%s[%s], %s - 1.0) * exp(-%s[%s] / %s) / %s' % (g, lv, a, g, lv, b, cname)
-        except (KeyError, IndexError):
-            okc = okm = False
-        rep.ob('R-ALG', 'C biv_ind_gamma marginal %d' % k, okc and okm, '%s = %s ; %s' % (cname, unparse(scal.get(cname)) if cname in scal else '?', unparse(lp.body[0].value)), rel, lp.line,
-               what='gamma density x^(alpha_k-1) exp(-x/beta_k) / (beta_k^alpha_k Gamma(alpha_k)) uses (alpha_%d, beta_%d) in all three places' % (k, k))
-    out = loops[2].body[0].body[0] if isinstance(loops[2].body[0], CFor) else None
-    oko = out is not None and unparse(out.value) == 'margx[ii] * margy[jj]' and Translator().tr(out.target.slice).equals(parse_expr('ii*m + jj'))
-    rep.ob('R-ALG', 'C biv_ind_gamma product', oko, unparse(out.target) + ' = ' + unparse(out.value) if out is not None else '?', rel, cg.line, what='independent product, row-major output')
+    c_density(rep, cg, rel, 'biv_ind_gamma', (2, 3, 4, 5))
     pg = prog.func('dadi.DFE.PDFs', 'biv_ind_gamma_py')
     tg = ast.unparse(pg)
     okpg = 'alpha1 = alpha2 = params[0]' in tg and 'beta1 = beta2 = params[1]' in tg and 'alpha1, alpha2, beta1, beta2 = params[:4]' in tg and 'xmarg = ssd.gamma.pdf(xx, alpha1, scale=beta1)' in tg and \
